@@ -208,20 +208,40 @@ def d2(rep, f, c):
                         if isinstance(s_, tuple) and len(s_) == 2 and s_[0] == 'init' and sb.locals[s_[1]]['ty'] == 'usize' and \
                                 len(sb.defs.get(s_[1], [])) >= 2 and s_[1] not in tot:
                             tot.append(s_[1])
-    if len(heads) != 1 or len(tot) != 1 or len(byt) != 1:
+    index_mode = False
+    if len(heads) == 1 and not byt:
+        # the rest of the input may be re-derived from the count instead of carried as a slice: validate_ascii(&buffer[total..])
+        for p_ in region_paths(sb, heads[0]):
+            for e_ in p_.calls():
+                if e_[1] == 'ascii::validate_ascii':
+                    ix_ = index_from(e_[2][0])
+                    if ix_ is not None and len(ix_) == 2 and strip_ref(ix_[0]) == BUF and ix_[1][0] == 'init':
+                        index_mode = True
+                        if ix_[1][1] not in tot:
+                            tot.append(ix_[1][1])
+    if len(heads) != 1 or len(tot) != 1 or (len(byt) != 1 and not index_mode):
         rep.undecidable('C19-D2.single', sfn, 'loop / accumulators not found', site, c)
         return
-    T, B = ('init', tot[0]), ('init', byt[0])
+    T = ('init', tot[0])
+    if index_mode:
+        B = ('call', 'core::slice::index::<impl core::ops::Index<I> for [T]>::index', (('ref', ('deref', BUF)), ('agg', 'core::ops::RangeFrom::RangeFrom', (T,))), None)
+    else:
+        B = ('init', byt[0])
     ok = True
     why = ''
     kinds = set()
     pre = [summarize(sb, blks, end) for blks, end in enumerate_block_paths(sb, 0, stop=heads)]
-    ok &= all(p.env.get(tot[0]) == C(0) and strip_ref(p.env.get(byt[0])) == BUF for p in pre if p.end[0] == 'stop')
+    ok &= all(p.env.get(tot[0]) == C(0) and (index_mode or strip_ref(p.env.get(byt[0])) == BUF) for p in pre if p.end[0] == 'stop')
     for p in [p for p in region_paths(sb, heads[0]) if feasible(p)]:
         if p.end[0] == 'diverge':
             continue
         va = [e for e in p.calls() if e[1] == 'ascii::validate_ascii']
-        if len(va) != 1 or strip_ref(va[0][2][0]) != strip_ref(B):
+        if index_mode:
+            ixa = index_from(va[0][2][0]) if len(va) == 1 else None
+            fed = ixa is not None and len(ixa) == 2 and strip_ref(ixa[0]) == BUF and ixa[1] == T
+        else:
+            fed = len(va) == 1 and strip_ref(va[0][2][0]) == strip_ref(B)
+        if len(va) != 1 or not fed:
             ok = False
             why = 'each iteration must call validate_ascii(bytes) exactly once'
             continue
@@ -234,11 +254,14 @@ def d2(rep, f, c):
             # ASCII the answer is what was counted so far PLUS the length of that remainder (the first build of this rule had
             # transcribed the code here — `return total` — instead of the documentation, and so agreed with a genuine defect)
             def is_total_plus_rest(e):
+                if index_mode and e == ('len', BUF):
+                    return True            # total + (buffer.len() - total)
                 try:
                     t_, k_ = add_terms(e)
                 except Exception:
                     return False
-                return k_ == 0 and sorted(t_, key=repr) == sorted([T, ('len', strip_ref(B))], key=repr)
+                rest_ = ('len', strip_ref(va[0][2][0])) if index_mode else ('len', strip_ref(B))
+                return k_ == 0 and sorted(t_, key=repr) == sorted([T, rest_], key=repr)
             if not (p.end[0] == 'return' and rv is not None and is_total_plus_rest(rv)):
                 ok = False
                 why = ('when the rest of the buffer is all ASCII the function must return total + bytes.len() (every remaining byte is compatible); '
@@ -274,10 +297,10 @@ def d2(rep, f, c):
                 why = 'on the first incompatible byte the result must be total + offset (the index of that byte)'
         else:
             kinds.add('go-on')
-            nb = p.env.get(byt[0])
+            nb = p.env.get(byt[0]) if not index_mode else None
             ix = index_from(nb) if nb is not None else None
-            if not (p.end[0] == 'back' and add_terms(p.env.get(tot[0])) == add_terms(('bin', 'Add', T1, C(1))) and ix is not None and len(ix) == 2
-                    and strip_ref(ix[0]) == strip_ref(B) and add_terms(ix[1]) == add_terms(('bin', 'Add', offset, C(1)))):
+            adv_slice = index_mode or (ix is not None and len(ix) == 2 and strip_ref(ix[0]) == strip_ref(B) and add_terms(ix[1]) == add_terms(('bin', 'Add', offset, C(1))))
+            if not (p.end[0] in ('back', 'stop') and add_terms(p.env.get(tot[0])) == add_terms(('bin', 'Add', T1, C(1))) and adv_slice):
                 ok = False
                 why = 'after a compatible non-ASCII byte the scan must continue at bytes[offset + 1..] with total + offset + 1'
     rep.ob('C19-D2.single', sfn, ok and kinds == {'end', 'stop', 'go-on'}, why or 'cases %r' % sorted(kinds), site, {'cases': sorted(kinds)}, c)
